@@ -52,10 +52,13 @@ def main():
             else:
                 tests_ok = None
                 if args.tests:
-                    r = subprocess.run(["/venv/bin/python", "-B", "-m", "pytest", "-q", "-x", "-p", "no:cacheprovider",
-                                        "dali/tests"], cwd=dst, capture_output=True, text=True,
-                                       env={**os.environ, "PYTHONPATH": dst, "PYTHONDONTWRITEBYTECODE": "1"})
-                    tests_ok = r.returncode == 0
+                    try:
+                        r = subprocess.run(["/venv/bin/python", "-B", "-m", "pytest", "-q", "-x", "-p", "no:cacheprovider",
+                                            "--timeout=120", "dali/tests"], cwd=dst, capture_output=True, text=True, timeout=400,
+                                           env={**os.environ, "PYTHONPATH": dst, "PYTHONDONTWRITEBYTECODE": "1"})
+                        tests_ok = r.returncode == 0
+                    except subprocess.TimeoutExpired:
+                        tests_ok = False
                 for prop in m["props"]:
                     env = {**os.environ, "VERIF_REPO": dst, "VERIF_EVIDENCE_DIR": os.path.join(tmp, "ev"),
                            "VERIF_REPLAY_DIR": os.path.join(tmp, "rp")}
